@@ -29,6 +29,7 @@ from typing import Any, Dict, List, Optional, Sequence, Set, Tuple
 
 from sa import astq
 from sa import symexec as SX
+from checks import c03v
 from sa.consteval import Folder
 from sa.defuse import Inliner
 from sa.model import AnalysisError, FuncInfo, norm
@@ -116,6 +117,8 @@ class Sites:
     maps: Dict[str, Any] = field(default_factory=dict)  # dict name -> kind | [kind, ...]
     typing: List[Tuple[SX.Path, str]] = field(default_factory=list)  # (path, stored type constant)
     nonnull: Set[str] = field(default_factory=set)
+    byvalue: Optional[Dict[str, Any]] = None  # registration read by value (checks/c03v.py) when the symbolic reading is impossible
+    records: Dict[str, List[str]] = field(default_factory=dict)  # record constructor -> field names
 
     def rewrite(self, e: ast.expr) -> ast.expr:
         return _Roles(self).visit(e)
@@ -137,6 +140,8 @@ class _Roles(ast.NodeTransformer):
             side = self._side(n.slice)
             if side is not None:
                 k = self.s.maps[n.value.id]
+                if isinstance(k, tuple) and k[0] == "record":
+                    return ast.Call(func=ast.Name(id=k[1], ctx=ast.Load()), args=[ast.Name(id=f"{x}_{side}", ctx=ast.Load()) if isinstance(x, str) else ast.Constant(value=None) for x in k[3]], keywords=[])
                 if isinstance(k, list):
                     return ast.Tuple(elts=[ast.Name(id=f"{x}_{side}", ctx=ast.Load()) if isinstance(x, str) else ast.Constant(value=None) for x in k], ctx=ast.Load())
                 return ast.Name(id=f"{k}_{side}", ctx=ast.Load())
@@ -144,7 +149,19 @@ class _Roles(ast.NodeTransformer):
         if side is not None:
             return ast.Name(id=f"point_{side}", ctx=ast.Load())
         self.generic_visit(n)
+        # position of a record: _Point(a, k, r)[1] -> k
+        if isinstance(n.value, ast.Call) and isinstance(n.value.func, ast.Name) and n.value.func.id in self.s.records and isinstance(n.slice, ast.Constant) and isinstance(n.slice.value, int) and 0 <= n.slice.value < len(n.value.args):
+            return n.value.args[n.slice.value]
         return SX._simplify(n)
+
+    def visit_Attribute(self, n: ast.Attribute):
+        self.generic_visit(n)
+        # field of a record: _Point(a, k, r).kind -> k
+        if isinstance(n.value, ast.Call) and isinstance(n.value.func, ast.Name) and n.value.func.id in self.s.records:
+            fields = self.s.records[n.value.func.id]
+            if n.attr in fields and fields.index(n.attr) < len(n.value.args):
+                return n.value.args[fields.index(n.attr)]
+        return n
 
 
 def _kd_points(fi: FuncInfo, loop: ast.For) -> str:
@@ -157,7 +174,57 @@ def _kd_points(fi: FuncInfo, loop: ast.For) -> str:
     return defs[0].args[0].id
 
 
-def build_sites(fi: FuncInfo, loop: ast.For) -> Sites:
+def build_sites(fi: FuncInfo, loop: ast.For, repo=None) -> Sites:
+    """Symbolic reading of the registration; by value (checks/c03v.py) when that is impossible and a repository is given."""
+    try:
+        return _build_sites_symbolic(fi, loop)
+    except (NotReadable, SX.TooManyPaths) as ex:
+        if repo is None:
+            raise
+        why = str(ex)
+    try:
+        return _build_sites_by_value(repo, fi, loop, why)
+    except c03v.NotEvaluable as ex2:
+        raise NotReadable(f"{why}; by value: {ex2}")
+
+
+def _build_sites_by_value(repo, fi: FuncInfo, loop: ast.For, why: str) -> Sites:
+    if not (isinstance(loop.target, ast.Tuple) and len(loop.target.elts) == 2 and all(isinstance(e, ast.Name) for e in loop.target.elts)):
+        raise NotReadable("the pair loop does not unpack (i, j)")
+    idx = (loop.target.elts[0].id, loop.target.elts[1].id)
+    points = _kd_points(fi, loop)
+    runs: Dict[str, Any] = {}
+    maps: Dict[str, Any] = {}
+    for L in c03v.LETTERS:
+        res = c03v.ResStub(repo, L, model=1, tag=1)
+        env = c03v.run_prefix(repo, fi, points, [res], None)
+        pts = list(env[points])
+        dicts = c03v.site_dicts(env, points)
+        runs[L] = {"res": res, "points": pts, "dicts": dicts}
+        for d, content in dicts.items():
+            kinds = {repr(c03v.component_kind(v, res)) for v in content.values()}
+            if len(kinds) != 1:
+                raise c03v.NotEvaluable(f"`{d}` stores values of different kinds")
+            k = c03v.component_kind(next(iter(content.values())), res)
+            if k is None:
+                continue
+            if d in maps and repr(maps[d]) != repr(k):
+                raise c03v.NotEvaluable(f"`{d}` stores values of different kinds for different bases")
+            maps[d] = k
+    if not maps:
+        raise c03v.NotEvaluable("no dictionary keyed by the registered points after the registration")
+    cand = [st for st in fi.node.body if isinstance(st, ast.For) and st is not loop and st.lineno < loop.lineno]
+    rl = cand[0] if cand else loop
+    s = Sites(fi, loop, idx, points, rl, rl.target.id if isinstance(rl.target, ast.Name) else "residue", [], nonnull=SX.nonnull_locals(fi.node))
+    s.maps = maps
+    for k in maps.values():
+        if isinstance(k, tuple) and k[0] == "record":
+            s.records[k[1]] = k[2]
+    s.byvalue = {"runs": runs, "why": why}
+    return s
+
+
+def _build_sites_symbolic(fi: FuncInfo, loop: ast.For) -> Sites:
     if not (isinstance(loop.target, ast.Tuple) and len(loop.target.elts) == 2 and all(isinstance(e, ast.Name) for e in loop.target.elts)):
         raise NotReadable("the pair loop does not unpack (i, j)")
     idx = (loop.target.elts[0].id, loop.target.elts[1].id)
@@ -313,9 +380,9 @@ def pairs_model(chk, fi: FuncInfo, loop: ast.For) -> PairsModel:
 
 
 def _pairs_model(chk, fi: FuncInfo, loop: ast.For) -> PairsModel:
-    sites = build_sites(fi, loop)
+    sites = build_sites(fi, loop, chk.repo)
     for need in ("atom", "type", "residue"):
-        have = [k for v in sites.maps.values() for k in (v if isinstance(v, list) else [v])]
+        have = [k for v in sites.maps.values() for k in (v[3] if isinstance(v, tuple) and v[0] == "record" else (v if isinstance(v, list) else [v]))]
         if need not in have:
             raise NotReadable(f"no dictionary keyed by the point stores the {need} of a site")
     ex = SX.Executor(nonnull=sites.nonnull, rewrite=sites.rewrite)
@@ -553,6 +620,9 @@ def check_registration(chk, fi: FuncInfo, m: PairsModel, spec, distinct: bool = 
     repo = chk.repo
     s = m.sites
     rl = s.res_loop
+    if s.byvalue is not None:
+        registration_by_value(chk, fi, s, spec, distinct)
+        return
     check_model_filter(chk, fi, rl, s.res_var, s.res_paths)
     tables = spec("lw_edges.json")
     letters = list(tables["BASE_ATOMS"]) + ["N"]
@@ -634,6 +704,83 @@ def check_registration(chk, fi: FuncInfo, m: PairsModel, spec, distinct: bool = 
     if fa is not None:
         unguarded = [e for p, e in regs if not any((k in (fa, f"{fa} is None")) and (v == (k == fa)) for k, v, _ in list(p.conds) + list(e.guards))]
         chk.expect(not unguarded, "contact-atoms", fi.site(rl), "a point is registered only when the atom was found", "a point is registered without testing that the atom was found", K(fi, "atom-found"))
+
+
+def registration_by_value(chk, fi: FuncInfo, s: Sites, spec, distinct: bool) -> None:
+    """The same facts as above, decided on the values the registration code produces for stand-in residues (one per base
+    letter; an atom missing; another model requested)."""
+    repo = chk.repo
+    tables = spec("lw_edges.json")
+    site = fi.site(s.res_loop)
+    runs = s.byvalue["runs"]
+    chk.ok("reading", fi.where, f"registration read by value on stand-in residues ({', '.join(runs)}): {s.byvalue['why'][:100]}")
+    diffs, dup, wrong = {}, {}, {}
+    n_typed = 0
+    for L, r in runs.items():
+        res = r["res"]
+        by_xyz = {(a.x, a.y, a.z): a for a in res.atoms}
+        names = []
+        for pt in r["points"]:
+            a = by_xyz.get(tuple(pt)) if isinstance(pt, (tuple, list)) else None
+            names.append(a.name if a is not None else f"<{pt!r}>"[:40])
+        want = tables["BASE_ACCEPTORS"].get(L, []) + tables["RIBOSE_ACCEPTORS"] + tables["PHOSPHATE_ACCEPTORS"] + tables["BASE_DONORS"].get(L, [])
+        if set(names) != set(want):
+            diffs[L] = {"missing": sorted(set(want) - set(names)), "extra": sorted(set(names) - set(want))}
+        d = sorted({x for x in names if names.count(x) > 1})
+        if d:
+            dup[L] = d
+        acc = set(tables["BASE_ACCEPTORS"].get(L, []) + tables["RIBOSE_ACCEPTORS"] + tables["PHOSPHATE_ACCEPTORS"])
+        for dname, content in r["dicts"].items():
+            k = s.maps.get(dname)
+            pos = None
+            if k == "type":
+                pos = ()
+            elif isinstance(k, list) and "type" in k:
+                pos = (k.index("type"),)
+            elif isinstance(k, tuple) and k[0] == "record" and "type" in k[3]:
+                pos = (k[3].index("type"),)
+            if pos is None:
+                continue
+            for pt, v in content.items():
+                a = by_xyz.get(tuple(pt))
+                if a is None:
+                    continue
+                t = v if pos == () else v[pos[0]]
+                n_typed += 1
+                if t != ("acceptor" if a.name in acc else "donor"):
+                    wrong[f"{L}:{a.name}"] = t
+        # every dictionary describes the atom registered under its key
+        for dname, content in r["dicts"].items():
+            k = s.maps.get(dname)
+            for pt, v in content.items():
+                comps = [v] if not isinstance(v, tuple) else list(v)
+                for c in comps:
+                    if isinstance(c, c03v.AtomStub) and (c.x, c.y, c.z) != tuple(pt):
+                        wrong[f"{L}:{dname}"] = f"the atom stored under a point is {c.name}, not the atom at that point"
+    chk.expect(not diffs, "contact-atoms", site, f"candidate atoms = base acceptors + ribose + phosphate acceptors + base donors of the residue's own base (registered points of stand-in residues {', '.join(runs)})", f"the atoms put into the KD-tree are not acceptors(base)+ribose+phosphate+donors(base) of the residue's one-letter name: {diffs}", K(fi, "atoms"), found=diffs)
+    if distinct:
+        chk.expect(not dup, "contact-distinct-points", site, "every candidate atom is one KD-tree point: each contact is counted once", f"{sorted({x for v in dup.values() for x in v})} are put into the KD-tree twice for bases {sorted(dup)}: query_pairs returns each of their contacts twice, and one donor-acceptor contact alone reaches the `at least two contacts` threshold", K(fi, "duplicate-points:" + ",".join(sorted({x for v in dup.values() for x in v}))), found=dup)
+    chk.expect(not wrong and n_typed > 0, "contact-typing", site, f"an atom is typed acceptor iff its name is in the acceptor lists of its residue, donor otherwise ({n_typed} stored types inspected)", f"atom typing differs from `acceptor iff the name is an acceptor of the base / ribose / phosphate`: {dict(list(wrong.items())[:6])}" if wrong else "no stored donor/acceptor type found", K(fi, "typing"), found=wrong)
+    # an atom that is missing from the file is skipped, nothing else changes
+    try:
+        L = "G"
+        full = runs[L]
+        gone = tables["BASE_DONORS"][L][0]
+        res2 = c03v.ResStub(repo, L, model=1, tag=1, missing=[gone])
+        env2 = c03v.run_prefix(repo, fi, s.points, [res2], None)
+        n2 = len(env2[s.points])
+        chk.expect(n2 == len(full["points"]) - 1, "contact-atoms", site, "a point is registered only when the atom was found (a residue without one candidate atom registers one point less)", f"with atom {gone} missing the registration yields {n2} points instead of {len(full['points']) - 1}", K(fi, "atom-found"))
+    except c03v.NotEvaluable as ex:
+        chk.violation("contact-atoms", site, f"a residue that lacks a candidate atom makes the registration fail ({str(ex)[:100]}): a point is registered without testing that the atom was found", K(fi, "atom-found"))
+    # model filter
+    try:
+        verdicts = {}
+        for tag, (req, own) in {"none": (None, 2), "same": (2, 2), "other": (1, 2)}.items():
+            env3 = c03v.run_prefix(repo, fi, s.points, [c03v.ResStub(repo, "A", model=own, tag=1)], req)
+            verdicts[tag] = len(env3[s.points]) > 0
+        chk.expect(verdicts == {"none": True, "same": True, "other": False}, "model-filter", site, "residues of other models are skipped before anything is registered (model None / same / other evaluated)", f"the registration does not keep exactly the residues of the requested model: registered? {verdicts} for (no model requested, same model, another model)", K(fi, "model-filter"), found=verdicts)
+    except c03v.NotEvaluable as ex:
+        chk.error("model-filter", site, f"model filter not evaluable: {str(ex)[:120]}")
 
 
 # ---------------------------------------------------------------------------------------------------------------------
